@@ -302,7 +302,40 @@ def decorate(rng, case, alns):
             a["tags"].append(["NM", rng.randint(0, 9)])
         if rng.random() < 0.1:
             a["tags"].append(["XS", "free text"])
+        if rng.random() < 0.5:
+            a["tags"] += typed_tags(rng)
+        rng.shuffle(a["tags"])                   # stale HP/PS/PC anywhere among the other tags
     return alns
+
+
+TYPED_POOL = [("tp", "A", lambda r: r.choice("PSIi")), ("XH", "H", lambda r: r.choice(["1AE3", "00FF", "AB"])),
+              ("Xc", "c", lambda r: r.randint(-100, 100)), ("XC", "C", lambda r: r.randint(0, 200)),
+              ("Xs", "s", lambda r: r.choice([-3, 7, -30000])), ("Xt", "S", lambda r: r.choice([3, 60000])),
+              ("Xi", "i", lambda r: r.choice([-5, 5, 100000])), ("XI", "I", lambda r: r.choice([5, 70000])),
+              ("Xf", "f", lambda r: r.choice([1.5, -0.25, 3.0])), ("Xd", "d", lambda r: r.choice([2.5, 1e-3])),
+              ("XZ", "Z", lambda r: r.choice(["text", "1", "P"])),
+              ("Bc", "B:b", lambda r: [-1, 2]), ("BC", "B:B", lambda r: [1, 200]), ("Bs", "B:h", lambda r: [-300, 2]),
+              ("BS", "B:H", lambda r: [1, 2, 60000]), ("Bi", "B:i", lambda r: [-70000]), ("BI", "B:I", lambda r: [7, 70000]),
+              ("Bf", "B:f", lambda r: [1.5, 0.25])]
+
+
+def typed_tags(rng):
+    """1-5 tags with explicit SAM types (values that would be stored differently if re-typed from the python value:
+    small integers in wide types, characters, hex strings, doubles, typed arrays)"""
+    return [[t, f(rng), ty] for t, ty, f in rng.sample(TYPED_POOL, rng.randint(1, 5))]
+
+
+def _set_tags(a, rg, tags):
+    import array
+    if rg:
+        a.set_tag("RG", rg, "Z")
+    for e in tags:
+        if len(e) == 2:
+            a.set_tag(e[0], e[1])
+        elif e[2].startswith("B:"):
+            a.set_tag(e[0], array.array(e[2][2:], e[1]))
+        else:
+            a.set_tag(e[0], e[1], e[2])
 
 
 # ------------------------------------------------------------------------------------------ regions
@@ -613,6 +646,9 @@ def gen_case(rng, region_kind=None, big=False, special=None, shared=None):
                 u["tags"] += [["HP", rng.randint(1, 2)], ["PS", rng.randint(1, 999)]]
             if case["bx"] and rng.random() < 0.4:
                 u["tags"].append(["BX", f"BX{_pfx(case, sm, 'bx')}-0"])
+            if rng.random() < 0.5:
+                u["tags"] += typed_tags(rng)
+                rng.shuffle(u["tags"])
             alns.append(u)
     tail = []
     for k in range(rng.choice([0, 0, 1, 3])):
@@ -622,6 +658,9 @@ def gen_case(rng, region_kind=None, big=False, special=None, shared=None):
             t["tags"] += [["HP", rng.randint(1, 2)], ["PS", rng.randint(1, 999)]]
         if rng.random() < 0.3:
             t["tags"].append(["BX", f"BX{_pfx(case, s, 'bx')}-0"])
+        if rng.random() < 0.5:
+            t["tags"] += typed_tags(rng)
+            rng.shuffle(t["tags"])
         tail.append(t)
     case["rgs"], case["alns"], case["tail"] = rgs, alns, tail
     # options
@@ -798,8 +837,7 @@ def write_bam(case, path):
             if "mate_start" in r:
                 a.next_reference_id = tid[r["chrom"]]
                 a.next_reference_start = r["mate_start"]
-            tags = ([("RG", r["rg"])] if r.get("rg") else []) + [(t, v) for t, v in r["tags"]]
-            a.set_tags(tags)
+            _set_tags(a, r.get("rg"), r["tags"])
             out.write(a)
         for u in case["tail"]:
             a = pysam.AlignedSegment(out.header)
@@ -807,7 +845,7 @@ def write_bam(case, path):
             a.query_sequence = u["seq"]
             a.flag = 4
             a.query_qualities = pysam.qualitystring_to_array("I" * len(u["seq"]))
-            a.set_tags(([("RG", u["rg"])] if u.get("rg") else []) + [(t, v) for t, v in u["tags"]])
+            _set_tags(a, u.get("rg"), u["tags"])
             out.write(a)
     pysam.index(path)
     return path
